@@ -121,6 +121,32 @@ CLAIMED = {
                 note="Trusted: z3 nlsat, vf/symx.py, CrossHair, 'every rotation has Euler angles'. IEEE rounding, float<->text conversion, visgroup modes, "
                      "pitch/yaw special keys and Manifest are outside.",
                 technique="real code on z3 Real terms (validity queries, staged lemmas) for geometry; CrossHair symbolic execution for names, fixups and histories"),
+    "C03": dict(engine="chx", category="model_checking",
+                text="The real Tokenizer runs on pre + w + post in 23 lexical contexts with w symbolic over all code points (exact length 0..2, 3 in "
+                     "string/comment states), the 7 options symbolic; every path compares the one-str delivery with one chunk, every single cut, every pair "
+                     "of cuts, per-character delivery and interleaved empty chunks (tokens, values, line numbers, error type/message), asserts only the "
+                     "configured error class escapes, EOF repeats and at most 2*len+4 characters are read. Keyvalues.parse on 12 skeletons with symbolic "
+                     "slot, flags and parse options returns a tree or raises exactly KeyValError.",
+                note="Trusted: CrossHair, z3, stubs (BARE_DISALLOWED tuple, intern identity, option attributes assigned directly - the keyword->attribute "
+                     "link is its own obligation). Longer w, >2 cuts (3 thorough) other than per-character, real file objects, the Cython tokenizer are outside.",
+                technique=_E1 + "; chunk cut positions are concrete slice parameters, text and options are solver variables"),
+    "C11": dict(engine="chx", category="model_checking",
+                text="For 13 lump families (RLE visibility, find_or_insert/extend, planes, vertexes, primitives, texture names, texinfo/texdata, overlays, "
+                     "brushes+sides, leafs, nodes, cubemaps, detail props, static props V4-V13/lightmap/Mesa) a value with unbounded symbolic integer fields, "
+                     "full symbolic flag words, names and aliasing choices is assigned, rebuilt by the real BSP.save() loop and re-read by the real readers: "
+                     "exact equality or an explicit error (silent truncation is the violation). One open known finding (V4-V9 prop flags).",
+                note="Trusted: CrossHair, z3, ModelStruct/ModelBytesIO (vf/stubs/binmodel.py), a Flag-lookup proxy. Faces/edges, bmodels, water-leaf info, the "
+                     "entity lump, pakfile, LZMA are NOT covered; floats concrete; lists <= 2-3; texture names <= 2 chars over 4 letters (enumeration).",
+                technique=_E1),
+    "C19": dict(engine="chx", category="model_checking",
+                text="Three concrete file sets (mixed case/nesting, prefix names, case-only duplicates) built natively as Virtual, Zip, VPK and Raw; the query "
+                     "string (length 0..4), the folder prefix (0..3) and chain histories of <= 3 add_sys calls (member, subfolder, priority as solver "
+                     "variables) are symbolic; existence and bytes agree across backends, walk_folder == files inside the folder as a folder, walked names "
+                     "look up to the same bytes, chains return the first member's content and de-duplicate walks. Two open known findings (non-canonical "
+                     "spellings).",
+                note="Trusted: CrossHair, z3, ListMap name tables (==-based, so symbolic keys are not hashed), C18's path model. Non-ASCII folding, longer names, "
+                     "Windows semantics, archive parsing are outside.",
+                technique=_E1),
 }
 _TODO = "check not built yet in this round (planned: see DESIGN.md section 3)"
 NOT_APPLICABLE = {f"C{i:02d}": _TODO for i in range(1, 21) if f"C{i:02d}" not in CLAIMED}
